@@ -7,7 +7,8 @@
 (* each is replayed on live objects.                                        *)
 EXTENDS Integers, Sequences, Json, TLC
 
-CONSTANTS NSrc, NText, MaxLen
+CONSTANTS NSrc, NText, MaxLen,
+          FailSrc     \* index of a source that Compile rejects (creates no object)
 
 VARIABLES hist, objs      \* steps so far; objs[j] = source index of the j-th compiled object
 hvars == <<hist, objs>>
@@ -17,7 +18,7 @@ Init == hist = <<>> /\ objs = <<>>
 Compile(k) ==
   /\ Len(hist) < MaxLen
   /\ hist' = Append(hist, [op |-> "compile", src |-> k])
-  /\ objs' = Append(objs, k)
+  /\ objs' = IF k = FailSrc THEN objs ELSE Append(objs, k)
 Run(j, t) ==
   /\ Len(hist) < MaxLen /\ j <= Len(objs)
   /\ hist' = Append(hist, [op |-> "run", obj |-> j - 1, text |-> t])
